@@ -111,7 +111,7 @@ NSign ==
          prov == craft \notin DigestCrafts
      IN \E dig \in {IF EntryGm(en) THEN <<>>                       \* (singleton \E: evaluate once, bind the value)
                     ELSE IF bad THEN Rnd(96, 32)
-                    ELSE IF prov THEN S!Digest(EffUid(uid), pub, msg)
+                    ELSE IF prov THEN DigestOf(EffUid(uid), pub, msg)
                     ELSE Crafted(craft, d, at)} :
         /\ Sign(en, uid, msg, dig, prov, strm, skew)
         /\ UNCHANGED <<key, route, ents>>
@@ -190,6 +190,8 @@ TypeOK == /\ phase \in {"init", "ready", "picked", "signed", "cand", "done"} /\ 
           /\ Len(ents) <= MaxSigns /\ CacheSound
 (* every Sign in the history of a bad key replied Err, and no Sign of a valid key did *)
 HistBadKeyAlwaysErr == \A i \in 1..Len(hist) : hist[i].op = "sign" => (hist[i].err <=> key \in BadIds)
+(* the block-wise digest carried in the candidate is the standard's e (costs a hash per state: refine instance only) *)
+DigestRefines == (cand.kind[1] # "nocand" /\ cand.gm) => cand.e = S!Digest(EffUid(cand.uid), cand.pub, cand.msg)
 (* integer entry points agree with the DER ones on every candidate that has both forms *)
 IntsAgree == [][(reply'.op = "verify" /\ cand.ints) => (hist'[Len(hist')].exp = hist'[Len(hist')].expi)]_vars
 =============================================================================
